@@ -33,6 +33,8 @@ NATIVE = {
 def conc(c):
     if c in ("prop_int", "prop_unit"):
         return odml.Property(name="src", dtype="int", values=[5, 6], unit="mV" if c == "prop_unit" else None)
+    if c == "prop_unit_str":
+        return odml.Property(name="src", dtype="string", values=["30", "n.a."], unit="mV")
     if c == "prop_str":
         return odml.Property(name="src", dtype="string", values=["x", "y"])
     v = CLASSES[c]
@@ -56,7 +58,7 @@ def build(s, k=0):
 
 def facts(p, probe=True):
     if p is None:
-        return {"dtype": "absent", "vals": [], "selfassign": "same", "n": 0}
+        return {"dtype": "absent", "vals": [], "selfassign": "same", "n": 0, "unit": "none"}
     d = p.dtype
     ds = "none" if d is None else str(d)
     vals = []
@@ -85,7 +87,7 @@ def facts(p, probe=True):
             sa = "same" if (after == before and (p.dtype is None and d is None or str(p.dtype) == ds)) else "changed"
         except Exception:
             sa = "raised"
-    return {"dtype": ds, "vals": vals, "selfassign": sa, "n": len(vals)}
+    return {"dtype": ds, "vals": vals, "selfassign": sa, "n": len(vals), "unit": "none" if p.unit is None else repr(p.unit)}
 
 
 def apply_op(p, op, k=0):
@@ -168,7 +170,7 @@ SC = ["int", "int0", "negint", "float_i", "float_f", "true", "false", "str", "te
       "bracketed", "dict", "none", "empty", "elist", "edict", "datetime_tz", "time_tz", "inf", "bigint", "s_int_ws", "s_float_exp", "tuple2e", "tuple3e",
       "s_date_early", "date_early", "s_datetime_early", "datetime_early"]
 LC = ["list_int", "list_str", "list_mixed", "list_s_int", "list_tuple2", "list_tuple2p", "list_tuple23"]
-PC = ["prop_int", "prop_str", "prop_unit"]
+PC = ["prop_int", "prop_str", "prop_unit", "prop_unit_str"]
 DTS = list(NATIVE)
 
 
